@@ -35,7 +35,7 @@ def isResult : Ev → Bool
 /-- the command kinds that leave a result line -/
 def producesResult (cmd : String) : Bool :=
   cmd.startsWith "idx " || cmd.startsWith "errlen " || cmd.startsWith "badarg " || cmd.startsWith "run " ||
-  cmd.startsWith "stackprog "
+  cmd.startsWith "stackprog " || cmd.startsWith "expl "
 
 /-- short description of a command for verdict lines: its first three words (the whole line for `stackprog`) -/
 def cmdTag (cmd : String) : String :=
